@@ -110,21 +110,57 @@ Proof.
      split; [destruct run1 as [rn1|]; [apply run_ok_set_m; exact B|exact I]|exact C]).
 Qed.
 
-(* histories with defragmentation *)
+(* the Allocation objects of the pending moves (sources and temporaries) of an open pass *)
+Definition pending_slots (run : option dfrun) : list Z :=
+  match run with
+  | Some rn => flat_map (fun dc => mv_slots (Defrag.c_moves (dc_ctx dc))) (dr_ctxs rn)
+  | None => []
+  end.
+
+(* an ordinary API call while a pass may be open: it does not touch the objects of the pending moves *)
+Definition op_avoids (run : option dfrun) (o : op) : Prop := forall s, In s (op_slots o) -> ~ In s (pending_slots run).
+
+Lemma pending_in run s : In s (pending_slots run) ->
+  exists rn i dc, run = Some rn /\ nth_z (dr_ctxs rn) i = Some dc /\ In s (mv_slots (Defrag.c_moves (dc_ctx dc))).
+Proof.
+  destruct run as [rn|]; [|intros []]. cbn. intros H. apply in_flat_map in H. destruct H as (dc & Hdc & Hs).
+  destruct (In_nth_error _ _ Hdc) as (n & Hn). exists rn, (Z.of_nat n), dc. split; [reflexivity|]. split; [|exact Hs].
+  unfold nth_z. destruct (Z.of_nat n <? 0) eqn:E; [apply Z.ltb_lt in E; lia|]. rewrite Nat2Z.id. exact Hn.
+Qed.
+
+Lemma in_pending rn i dc s : nth_z (dr_ctxs rn) i = Some dc -> In s (mv_slots (Defrag.c_moves (dc_ctx dc))) -> In s (pending_slots (Some rn)).
+Proof. intros Hn Hs. cbn. apply in_flat_map. exists dc. split; [eapply nth_z_in; eauto|exact Hs]. Qed.
+
+Lemma idle_avoids run o : drun_idle run -> op_avoids run o.
+Proof.
+  intros Hi s _ Hp. destruct (pending_in _ _ Hp) as (rn & i & dc & -> & Hn & Hs). cbn in Hi. rewrite (Hi _ _ Hn) in Hs. destruct Hs.
+Qed.
+
+(* the pending moves survive a call that leaves their objects alone *)
+Lemma run_ok_avoid_frame v v' rn S :
+  run_ok v rn -> tab_frame v v' S -> (forall s, In s S -> ~ In s (pending_slots (Some rn))) -> run_ok v' rn.
+Proof.
+  intros (Hb & Ha & Hr) T Hav. split; [exact Hb|]. split; [exact Ha|]. intros i dc Hn. destruct (Hr _ _ Hn) as (H1 & H2). split; [|exact H2].
+  intros E. apply (moves_ok_frame v v' (dc_lr dc) S _ T); [|apply H1; exact E].
+  intros s Hs Hin. apply (Hav s Hs). eapply in_pending; eauto.
+Qed.
+
+(* histories with defragmentation; ordinary calls may come while a pass is open *)
 Inductive reachD : vam -> option dfrun -> Prop :=
 | reachD_new nslots v : vam_new c nslots = OK v -> reachD v None
 | reachD_step v run o f v' r calls :
-    reachD v run -> drun_idle run -> op_ok v o -> step c v o f = (v', r, calls) -> r <> RPanic -> r <> RStuck -> reachD v' run
+    reachD v run -> op_avoids run o -> op_ok v o -> step c v o f = (v', r, calls) -> r <> RPanic -> r <> RStuck -> reachD v' run
 | reachD_dstep v run o f v' run' r calls dr :
     reachD v run -> dop_ok v run o -> dstep c v run o f = (v', run', r, calls, dr) -> r <> RPanic -> r <> RStuck ->
     reachD v' run'.
 
 Theorem reachD_inv v run : reachD v run -> VamInv c v /\ drun_ok v run.
 Proof.
-  intros R. induction R as [nslots v H|v run o f v' r calls R IH Hidle Hok Hs Hp Hk|v run o f v' run' r calls dr R IH Hok Hs Hp Hk].
+  intros R. induction R as [nslots v H|v run o f v' r calls R IH Hav Hok Hs Hp Hk|v run o f v' run' r calls dr R IH Hok Hs Hp Hk].
   - split; [eapply vam_new_inv; eauto|exact I].
   - destruct IH as (HI & Hr). pose proof (step_preserves c Hc v o f HI Hok) as P. rewrite Hs in P. destruct (P Hp Hk) as (I1 & _).
-    split; [exact I1|]. destruct run as [rn|]; [|exact I]. eapply run_ok_idle_frame; eauto.
+    pose proof (step_frame c Hc v o f HI Hok) as F. rewrite Hs in F. specialize (F Hp Hk).
+    split; [exact I1|]. destruct run as [rn|]; [|exact I]. eapply run_ok_avoid_frame; eauto.
   - destruct IH as (HI & Hr). pose proof (dstep_preserves v run o f HI Hr Hok) as P. rewrite Hs in P. destruct (P Hp Hk) as (I1 & R1 & _). auto.
 Qed.
 
@@ -153,7 +189,7 @@ Qed.
 Lemma reach_reachD v : reach c v -> reachD v None.
 Proof.
   intros R. induction R as [nslots v H|v o f v' r calls R IH Hok Hs Hp Hk]; [eapply reachD_new; eauto|].
-  eapply reachD_step; eauto. exact I.
+  eapply reachD_step; eauto. apply idle_avoids. exact I.
 Qed.
 
 End WithCfg.
